@@ -25,7 +25,12 @@ Line protocol of the C03 model driver.
       rt <scope c>... [| I=<c,..> RO=<a:b,..> MI=<c,..> RI=<a:b,..> KO=<c,..> CO=<c,..> RM=<a:b,..>]...
                                 pickle round trip of the object with channels `scope`; one `|` group per
                                 composite, innermost first (the seven fields of `Data.Comp`)
+      submit <n> <c>=<v>...     run with an executor: admission only     complete <n>   the job finishes
     setup, continued:
+      cache <n> 0|1             use_cache of node n
+      kids <n> <k>...           children of composite n in execution order      deps <k> <d>...
+      wire <a> <b>              connection present after construction (a.connect(b), silent)
+      quiet <n>...              nodes whose function does not write to the harness' call log
       cfg <revIter> <pushIn> <pushOut> <ownOnly> <allIn>   (0|1 each) variant of __getstate__ / __setstate__
                                 (current tree: 1 0 0 1 0)
 -/
@@ -38,6 +43,8 @@ structure St where
   hintbad : List (Nat × Nat)
   fuel : Nat
   cfg : Cfg
+  /-- nodes whose wrapped function does not write to the harness' call log (plain sources) -/
+  quiet : List Nat
 
 def St.params (st : St) : Params :=
   { admits := fun c v => match v with
@@ -52,7 +59,7 @@ def St.params (st : St) : Params :=
 
 def init0 : St :=
   { s := Data.init (fun _ => .dataIn) (fun _ => 0) (fun _ => false) (fun _ => true) (fun _ => []) (fun _ => []),
-    chans := [], nodes := [], rejects := [], hintbad := [], fuel := 40, cfg := Cfg.repaired }
+    chans := [], nodes := [], rejects := [], hintbad := [], fuel := 40, cfg := Cfg.repaired, quiet := [] }
 
 def showVal : Val → String
   | .nd => "ND"
@@ -121,12 +128,16 @@ def parseBit (w : String) : Option Bool :=
 def showErr : Err → String
   | .runtime => "Runtime" | .type => "Type" | .recursion => "Recursion" | .conn => "Conn"
   | .value => "Value" | .copy => "ValueCopy" | .readiness => "Readiness" | .serial => "Serial"
+  | .child => "FailedChild"
 
-def showOut : Out → String
+/-- the outcome as the harness can see it: `invoked` = the call log grew during the operation -/
+def showOut (grew : Bool) : Out → String
   | .ok => "ok"
   | .err e => showErr e
-  | .invoked none => "invoked"
-  | .invoked (some e) => "invoked+" ++ showErr e
+  | .invoked none => if grew then "invoked" else "ok"
+  | .invoked (some e) => if grew then "invoked+" ++ showErr e else showErr e
+  | .hit => "ok"
+  | .submitted => "submitted"
 
 def bit (b : Bool) : String := if b then "1" else "0"
 
@@ -135,13 +146,16 @@ def obs (st : St) : String :=
   let vals := " ".intercalate (st.chans.map fun c => s!"{c}={showVal (s.val c)}")
   let conns := " ".intercalate (st.chans.map fun c => s!"{c}={showNats (s.conns c)}")
   let flags := " ".intercalate (st.nodes.map fun n => s!"{n}={bit (s.running n)}{bit (s.failed n)}")
-  let calls := ";".intercalate (s.calls.map fun (n, args) => s!"{n}(" ++ ",".intercalate (args.map showVal) ++ ")")
+  let calls := ";".intercalate ((s.calls.filter fun (n, _) => !st.quiet.contains n).map fun (n, args) => s!"{n}(" ++ ",".intercalate (args.map showVal) ++ ")")
   s!"| V {vals} | C {conns} | F {flags} | K {calls}"
 
 def doOp (st : St) (op : Data.Op) : St × List String :=
   let (s', out) := Data.step st.params st.fuel st.s op
   let st' := { st with s := s' }
-  (st', [showOut out ++ " " ++ obs st'])
+  let res := match op with
+    | .complete _ => if out.isInvoked then "completed" else "ok"
+    | _ => showOut (((s'.calls.drop st.s.calls.length).filter fun (n, _) => !st.quiet.contains n).length > 0) out
+  (st', [res ++ " " ++ obs st'])
 
 def addNode (st : St) (n : Nat) : St :=
   if st.nodes.contains n then st else { st with nodes := st.nodes ++ [n] }
@@ -177,6 +191,34 @@ def stepLine (st : St) (ws : List String) : St × List String :=
     match a.toNat?, b.toNat? with
     | some a, some b => ({ st with hintbad := (a, b) :: st.hintbad }, [])
     | _, _ => bad
+  | "quiet" :: ns =>
+    match nats ns with
+    | some ns => ({ st with quiet := st.quiet ++ ns }, [])
+    | none => bad
+  | ["cache", n, b] =>
+    match n.toNat?, parseBit b with
+    | some n, some b => ({ st with s := { st.s with useCache := updF st.s.useCache n b } }, [])
+    | _, _ => bad
+  | "kids" :: n :: ks =>
+    match n.toNat?, nats ks with
+    | some n, some ks => ({ st with s := { st.s with kids := updF st.s.kids n ks } }, [])
+    | _, _ => bad
+  | "deps" :: n :: ks =>
+    match n.toNat?, nats ks with
+    | some n, some ks => ({ st with s := { st.s with deps := updF st.s.deps n ks } }, [])
+    | _, _ => bad
+  | ["wire", a, b] =>
+    match a.toNat?, b.toNat? with
+    | some a, some b => ({ st with s := (connectS st.params st.s a b).1 }, [])
+    | _, _ => bad
+  | "submit" :: n :: kw =>
+    match n.toNat?, parseKw kw with
+    | some n, some kw => doOp st (.submit n kw)
+    | _, _ => bad
+  | ["complete", n] =>
+    match n.toNat? with
+    | some n => doOp st (.complete n)
+    | none => bad
   | ["recv", a, b] =>
     match a.toNat?, b.toNat? with
     | some a, some b => ({ st with s := { st.s with recv := updF st.s.recv a (some b) } }, [])
